@@ -299,10 +299,10 @@ func main() {
 		case results[w].code == 3 && wo.Hang != nil:
 			h := wo.Hang
 			if !isLibraryLabel(h.Label) {
-				trouble = fmt.Sprintf("worker %d made no progress for 20 s in harness code (label %q, run %s/%d)", w, h.Label, h.Config.Mode, h.Config.Index)
+				trouble = fmt.Sprintf("worker %d made no progress for 30 s in harness code (label %q, run %s/%d)", w, h.Label, h.Config.Mode, h.Config.Index)
 				continue
 			}
-			key := prop + "|hang|" + h.Label + "|no-progress-20s"
+			key := prop + "|hang|" + h.Label + "|no-progress-30s"
 			if _, ok := known[key]; ok {
 				stats.KnownSeen[key]++
 				continue
@@ -310,7 +310,7 @@ func main() {
 			if !seenKey[key] {
 				seenKey[key] = true
 				violations = append(violations, core.ReplayFile{Property: prop, Scenario: h.Config.Scenario, Config: h.Config, Seed: seed, RunSeed: h.Seed, Key: key,
-					Detail: "library call " + h.Label + " made no progress for 20 s of real time (every legitimate call finishes in microseconds)"})
+					Detail: "library call " + h.Label + " made no progress for 30 s of real time (every legitimate call finishes in microseconds)"})
 			}
 		default:
 			// crash (fatal error, out of memory under the 5 GiB address-space limit, killed)
@@ -372,12 +372,15 @@ func main() {
 			fmt.Printf("finding %s: %s\n", v.Key, v.Detail)
 			continue
 		}
-		rr := runReplay(path, knownPath, "", false)
-		if !rr.reproduced || (v.Signature != "" && rr.signature != v.Signature) {
+		how := verifyReplay(v, path, knownPath)
+		if how == "" {
 			// a finding that does not replay exactly in a fresh process is never reported as a violation
-			unverified = append(unverified, fmt.Sprintf("%s (reproduced=%v, signature %s vs %s)", v.Key, rr.reproduced, short12(rr.signature), short12(v.Signature)))
+			unverified = append(unverified, v.Key)
 			os.Remove(path)
 			continue
+		}
+		if how != "as-found" {
+			fmt.Printf("note: %s replays exactly in fresh processes %s\n", v.Key, how)
 		}
 		fmt.Printf("finding %s: %s\n  minimised tape %d -> %d entries (%d minimiser runs), replay verified in a fresh process\n", v.Key, v.Detail, v.OrigTape, len(v.Tape), v.MinRuns)
 		lines = append(lines, fmt.Sprintf("VIOLATION property=%s replay=%s", prop, path))
@@ -409,6 +412,47 @@ func main() {
 	}
 }
 
+// verifyReplay re-executes a replay file in fresh processes. The fresh-process
+// execution is the reference: a replay is accepted when it reproduces the
+// finding with the signature recorded in the file, or - when the worker that
+// found it had a different process history (library state that outlives a run,
+// e.g. a leaked pooled or static buffer) - when two fresh processes agree with
+// each other; the file is then re-based on that execution. If the minimised
+// tape depends on the finder's history, the unminimised run (seed only) is
+// tried the same way. "" = could not be replayed exactly.
+func verifyReplay(v *core.ReplayFile, path, knownPath string) string {
+	rr := runReplay(path, knownPath, "", false)
+	if rr.reproduced && (v.Signature == "" || rr.signature == v.Signature) {
+		return "as-found"
+	}
+	if rr.reproduced {
+		rr2 := runReplay(path, knownPath, "", false)
+		if rr2.reproduced && rr2.signature == rr.signature {
+			v.Signature = rr.signature
+			jb, _ := json.MarshalIndent(v, "", " ")
+			os.WriteFile(path, jb, 0o644)
+			return "(signature re-based on the fresh-process execution; the finder's process history differed)"
+		}
+	}
+	// fall back to the unminimised run, identified by its seed alone
+	seedOnly := *v
+	seedOnly.Tape = nil
+	seedOnly.Trace = nil
+	seedOnly.Signature = ""
+	jb, _ := json.MarshalIndent(seedOnly, "", " ")
+	os.WriteFile(path, jb, 0o644)
+	a := runReplay(path, knownPath, "", false)
+	b := runReplay(path, knownPath, "", false)
+	if a.reproduced && b.reproduced && a.signature == b.signature {
+		seedOnly.Signature = a.signature
+		jb, _ = json.MarshalIndent(seedOnly, "", " ")
+		os.WriteFile(path, jb, 0o644)
+		*v = seedOnly
+		return "(unminimised: the run is identified by its seed, the minimised tape depended on the finder's process history)"
+	}
+	return ""
+}
+
 func short12(s string) string {
 	if len(s) > 12 {
 		return s[:12]
@@ -435,10 +479,14 @@ func buildRace() {
 	}
 }
 
-func runRaceProc(seed uint64, procs int, runs, seconds int) (string, int) {
+func runRaceProc(seed uint64, procs int, runs, seconds int, coldFrom ...int) (string, int) {
 	cmd := exec.Command(simRace, "-test.run", "^TestRaceLeg$", "-test.count", "1", "-test.timeout", "2h")
 	cmd.Env = append(goEnv(), "VERIF_RACE=1", "GORACE=halt_on_error=1 exitcode=66", fmt.Sprintf("VERIF_RACE_PROCS=%d", procs),
 		fmt.Sprintf("VERIF_SEED=%d", seed), fmt.Sprintf("VERIF_RACE_RUNS=%d", runs), fmt.Sprintf("VERIF_RACE_SECONDS=%d", seconds))
+	if len(coldFrom) > 0 {
+		// cold start: a fresh process whose first workload runs concurrently before anything else touched the library
+		cmd.Env = append(cmd.Env, "VERIF_RACE_COLD=1", fmt.Sprintf("VERIF_RACE_FROM=%d", coldFrom[0]))
+	}
 	out, err := cmd.CombinedOutput()
 	code := 0
 	if err != nil {
@@ -476,14 +524,29 @@ func raceLeg(tier string, seed uint64, known map[string]core.KnownEntry, stats *
 		runs, seconds = 1000000, 300
 	}
 	procs := []int{1, 4, 16}
+	// cold-start processes: fresh process, first workload concurrent before any sequential call
+	nCold := 12
+	if tier == "thorough" {
+		nCold = 200
+	}
+	for i := 0; i < nCold; i++ {
+		procs = append(procs, []int{4, 16, 8}[i%3])
+	}
 	outs := make([]string, len(procs))
 	codes := make([]int, len(procs))
 	var wg sync.WaitGroup
+	sem := make(chan struct{}, 8)
 	for i, p := range procs {
 		wg.Add(1)
 		go func(i, p int) {
 			defer wg.Done()
-			outs[i], codes[i] = runRaceProc(seed, p, runs, seconds)
+			if i < 3 {
+				outs[i], codes[i] = runRaceProc(seed, p, runs, seconds)
+				return
+			}
+			sem <- struct{}{}
+			defer func() { <-sem }()
+			outs[i], codes[i] = runRaceProc(seed, p, 2, 20, 1000+i)
 		}(i, p)
 	}
 	wg.Wait()
@@ -498,6 +561,9 @@ func raceLeg(tier string, seed uint64, known map[string]core.KnownEntry, stats *
 		}
 		key, detail := "", ""
 		switch {
+		case strings.Contains(out, "WARNING: DATA RACE") && raceFrame(out) == "unknown":
+			// a race that involves no frame of the module under test is a defect of the harness, never a violation
+			harness("race detector report without any frame of the library at GOMAXPROCS=%d: %s", p, tail(out, 2500))
 		case strings.Contains(out, "WARNING: DATA RACE"):
 			key = "C13|data-race|" + raceFrame(out) + "|race-detector"
 			detail = fmt.Sprintf("the race detector reported a data race at GOMAXPROCS=%d (workload seed %d); report: %s", p, seed, tail(out[strings.Index(out, "WARNING: DATA RACE"):], 1800))
@@ -526,7 +592,7 @@ func raceLeg(tier string, seed uint64, known map[string]core.KnownEntry, stats *
 		fmt.Printf("finding %s: %s\n", key, tail(detail, 600))
 		lines = append(lines, fmt.Sprintf("VIOLATION property=C13 replay=%s", path))
 	}
-	extra["race_leg"] = map[string]any{"gomaxprocs": procs, "summary": summary, "note": "free-running real threads under the race detector; interleaving NOT decided by the simulator"}
+	extra["race_leg"] = map[string]any{"gomaxprocs": procs[:3], "cold_start_processes": len(procs) - 3, "summary": summary, "note": "free-running real threads under the race detector; interleaving NOT decided by the simulator"}
 	return lines
 }
 
